@@ -5,8 +5,11 @@ pub mod crc;
 pub mod fields;
 pub mod frame;
 pub mod infra;
+pub mod msggen;
+pub mod msm;
 pub mod pool;
 pub mod rng;
+pub mod value;
 
 pub mod registry {
     #[derive(Debug, Clone, Copy)]
